@@ -5,7 +5,7 @@
    a + randint(0, b, 1)[0]   (one DU draw, library randint). *)
 From Coq Require Import List Arith Bool Lia ZArith QArith.
 Import ListNotations.
-From TF Require Import Base RandomPrims Tree TreeIdx GPOps C09Check.
+From TF Require Import Base RandomPrims Tree TreeIdx GPOps GPOpsProofs4 C09Check.
 Open Scope nat_scope.
 
 Definition eph (base n : nat) : M sy :=
@@ -64,37 +64,21 @@ Definition chk_op (c : nat * list (ptree sy) * (list Q * list Q) * (nat * nat * 
   | _, _ => false
   end.
 
-(* ---- the recursive common region of k trees (root common; descend iff all arities agree, else
-   border), computed with fuel on the parsed trees; compared with the k-tree walk *)
-Fixpoint transposeT {A} (n : nat) (ls : list (list A)) : list (list A) :=
-  match n with
-  | 0 => []
-  | S n' => flat_map (fun l => match l with [] => [] | x :: _ => [x] end) ls
-            :: transposeT n' (map (@tl A) ls)
-  end.
-Definition child_offsets (o : nat) (kids : list (tree sy)) : list nat := child_starts (S o) kids.
-
-Fixpoint crk_rec (fuel : nat) (ts : list (tree sy)) (os : list nat) : list (list nat) * list (list nat) :=
-  match fuel with
-  | 0 => ([], [])
-  | S f =>
-    let ars := map (fun t => sy_arity (root t)) ts in
-    if all_eqb ars then
-      let n := hd 0 ars in
-      let kidcols := transposeT n (map (@children sy) ts) in
-      let offcols := transposeT n (map (fun to => child_offsets (snd to) (children (fst to))) (combine ts os)) in
-      let rs := map (fun ko => crk_rec f (fst ko) (snd ko)) (combine kidcols offcols) in
-      (os :: flat_map fst rs, flat_map snd rs)
-    else ([os], [os])
-  end.
-Definition chk_crk_rec (c : list (list sy)) : bool :=
+(* ---- the hypothesis of C08_uniform_k_closed_partial, evaluated on the parents of a case:
+   Tree.get_common_region (for k <> 2 parents the k-tree walk common_region_k) returns the
+   recursive common region GPOps.crk_tag (columns, and the border positions in parent 0) *)
+Definition region_eqb (a b : list (list nat) * list nat) : bool :=
+  natlists_eqb (fst a) (fst b) && natlist_eqb (snd a) (snd b).
+Definition chk_region (c : list (list sy)) : bool :=
   let ts := map (parse sy_arity) c in
   if forallb (fun o => match o with Some _ => true | None => false end) ts then
-    let ts' := flat_map (fun o => match o with Some t => [t] | None => [] end) ts in
-    match common_region_k (map (nargs sy_arity) c) with
-    | Some (cs, bs) =>
-      let '(cs', bs') := crk_rec (S (length (hd [] c))) ts' (map (fun _ => 0) ts') in
-      natlists_eqb cs cs' && natlists_eqb bs bs'
-    | None => false
+    let Ts := flat_map (fun o => match o with Some t => [t] | None => [] end) ts in
+    match Ts with
+    | [] => false
+    | T0 :: _ =>
+      match region sy_arity (parents_of sy_arity Ts) with
+      | Some r => region_eqb r (region_rec sy_arity Ts (S (depth T0)))
+      | None => false
+      end
     end
   else false.
